@@ -19,8 +19,9 @@ LEVEL = ("decides writer/reader agreement of the DRCP text format from the two s
          'of the same type (K4 NUM-WIDTH). Literal-definition lines the writer emits are in the reader'
          ' grammar (K5), the two identifier grammars agree and admit a leading underscore (K6), and '
          'every concrete atomic text is read by the alternative of the ordered choice that builds its '
-         'kind (K7). Does not decide equality of parsed content for arbitrary identifiers and 64-bit '
-         'values')
+         'kind (K7). The literal → atomic map negates exactly for negative literals on every path (K8)'
+         ' and every logging method of the writer writes its step with a fresh id on every path (K9). '
+         'Does not decide equality of parsed content for arbitrary identifiers and 64-bit values')
 TECHNIQUE = "static analysis: grammar recovery from nom combinators and format templates in rustc MIR, bounded language inclusion"
 
 # ---------------------------------------------------------------------------------------------
@@ -626,6 +627,90 @@ def k6(led, rid, ctx):
               "identifiers starting with `_` (introduced variables, internal labels) are not accepted by the reader")
 
 
+def k8(led, rid, ctx):
+    """POLARITY TABLE of the literal → atomic map used when a proof is read with its literal
+    definitions: on every path the sign of the literal decides whether the definition is negated
+    (positive: as defined; negative: negated), and the definition looked up is that of the literal's
+    own code.  A path whose result does not depend on the sign (a remembered result) gives `-c` the
+    meaning of `c`."""
+    p = ctx.drcp
+    fs = [f for f in p.fns.values() if f.name == "to_atomic" and "LiteralDefinitions" in (f.self_ty or "")]
+    if len(fs) != 1:
+        raise AnchorMissing("impl LiteralAtomicMap for LiteralDefinitions")
+    f = fs[0]
+    for _ in range(3):                      # follow forwarders (to_atomic → a helper with the same argument)
+        paths = [pa for pa in SymExec(f, max_paths=200).run() if not pa.diverged and pa.ret is not None]
+        if len(paths) == 1 and not paths[0].conds:
+            r = peel(paths[0].ret, calls=None)
+            if r.k == "call":
+                hs = [h for h in p.callees(r.a) if h is not f]
+                if len(hs) == 1:
+                    f = hs[0]
+                    continue
+        break
+    lit = None
+    for i, a in enumerate(f.args):
+        if "NonZero<i32>" in a["ty"]:
+            lit = i + 1
+    if lit is None:
+        raise AnchorMissing("the literal parameter of %s" % f.name)
+    n = 0
+    for pa in paths:
+        n += 1
+        sign = None
+        for c, v, o in pa.conds:
+            c_ = peel(c, calls=None)
+            if c_.k == "call" and c_.a.name in ("is_positive", "is_negative") and c_.b and \
+                    any(x.k == "arg" and x.a == lit for x in c_.b[0].walk()):
+                truth = (v == 1) if v is not None else (0 in (o or []))
+                sign = truth if c_.a.name == "is_positive" else (not truth)
+        negated = sum(1 for x in pa.ret.walk() if x.k == "call" and x.a.name == "not") % 2 == 1
+        own = any(x.k == "call" and x.a.name in ("unsigned_abs", "abs") and x.b and
+                  any(y.k == "arg" and y.a == lit for y in x.b[0].walk()) for x in pa.ret.walk())
+        bad = None
+        if sign is None:
+            bad = "returns %s on a path that never looks at the sign of the literal" % show(pa.ret)[:70]
+        elif sign and negated:
+            bad = "negates the definition for a positive literal"
+        elif not sign and not negated:
+            bad = "does not negate the definition for a negative literal"
+        elif not own:
+            bad = "returns %s, which is not looked up under the literal's own code" % show(pa.ret)[:70]
+        led.check(bad is None, rid, "to_atomic:path%d:%s" % (n, "positive" if sign else "negative" if sign is not None else "?"),
+                  f.span, "definition%s" % (" negated" if negated else ""),
+                  "the literal → atomic map of LiteralDefinitions (%s) %s: a proof read with its literal "
+                  "definitions attributes the wrong atomic constraint to that literal" % (f.name, bad))
+    led.floor(rid, "paths of the literal → atomic map", n, 2)
+
+
+def k9(led, rid, ctx):
+    """MUST-PASS: every step-logging method of ProofWriter writes its step on every path (the write
+    dominates every return) and, where the step has an id, takes a fresh one: the n-th call
+    produces the n-th step of the file.  A step that is skipped (because it 'repeats' the previous
+    one) changes the sequence the reader gets back and hands out an id that later steps may no
+    longer be allowed to use."""
+    p = ctx.drcp
+    n = 0
+    for f in p.fns.values():
+        if "writer/mod.rs" not in f.file or f.kind == "Closure" or "ProofWriter" not in (f.self_ty or ""):
+            continue
+        if not (f.name.startswith("log_") or f.name == "conclude"):
+            continue
+        n += 1
+        ws = [c for c in f.calls if c.name in ("write", "write_all", "write_fmt", "write_string")]
+        ok = any(all(f.cfg.dominates(c.bb, r) for r in f.cfg.returns) for c in ws)
+        led.check(ok, rid, "%s:writes-on-every-path" % f.name, f.span, "a write dominates every return",
+                  "ProofWriter::%s can return without writing its step: the written file has fewer steps than "
+                  "were logged, so it does not read back as the logged sequence" % f.name)
+        if f.name in ("log_inference", "log_nogood_clause"):
+            ids = f.calls_named("next_step_id")
+            ok2 = any(all(f.cfg.dominates(c.bb, r) for r in f.cfg.returns) for c in ids)
+            led.check(ok2, rid, "%s:fresh-id-on-every-path" % f.name, f.span, "next_step_id dominates every return",
+                      "ProofWriter::%s can return an id it did not just allocate: two logged steps share one id"
+                      % f.name)
+    led.floor(rid, "step-logging methods of ProofWriter", n, 4)
+
+
 def k7(led, rid, ctx):
     """ORDERED CHOICE: the reader of an atomic constraint is nom's `alt`, which takes the first
     alternative that succeeds.  Every concrete text the writer produces for one kind of atomic
@@ -686,6 +771,8 @@ def k7(led, rid, ctx):
 
 
 def run(ctx, led):
+    run_rule(led, "K9", "MUST-PASS: every logging method of the writer writes its step and takes a fresh id on every path", k9, ctx)
+    run_rule(led, "K8", "POLARITY TABLE: the literal → atomic map negates exactly for negative literals, on every path", k8, ctx)
     run_rule(led, "K7", "ORDERED CHOICE: each kind of atomic text is read by the alternative that builds that kind", k7, ctx)
     run_rule(led, "K1", "TOKENS: the literal tokens of writer and reader agree", k1, ctx)
     run_rule(led, "K2", "per step kind, every output skeleton of the writer (optional parts 0/1, lists "
